@@ -300,10 +300,10 @@ func run(c *core.Ctx) {
 	seed := uint64(c.Seed)
 	m := &merger{c: c, viols: map[string]*viol{}, labels: map[string][]string{}, samples: map[string]int{}}
 
-	casesPer := map[string]int{"json": c.N(96, 2400), "csv": c.N(128, 3200), "syslog_rfc5424": c.N(96, 2400), "syslog_rfc3164": c.N(96, 2400),
-		"nginx_error": c.N(96, 2400), "cri": c.N(128, 3200), "postgres": c.N(128, 3200), "protobuf": c.N(96, 2400)}
+	casesPer := map[string]int{"json": c.N(96, 1800), "csv": c.N(128, 2400), "syslog_rfc5424": c.N(96, 1800), "syslog_rfc3164": c.N(96, 1800),
+		"nginx_error": c.N(96, 1800), "cri": c.N(128, 2400), "postgres": c.N(128, 2400), "protobuf": c.N(96, 1800)}
 	chunk := c.N(8, 50)
-	pipeCases := c.N(12, 240)
+	pipeCases := c.N(12, 200)
 	pipeChunk := c.N(6, 40)
 
 	type task func()
